@@ -10,6 +10,6 @@ GenValues == {V1, V2, V3}
 AllProducers == {"basic-any", "basic-typed", "bind", "decode-cbor", "decode-json"}
 GenProducers == IF ProducerSel = "all" THEN AllProducers ELSE {ProducerSel}
 GenOps == {"read", "iter-partial", "encode-cbor", "encode-json", "copy-extend-basic", "copy-extend-bind", "embed-extend",
-           "assign-top-then-reset", "reset-reuse", "walk", "walk-subset", "transform", "store-load", "stale-assembler"}
+           "assign-top-then-reset", "reset-reuse", "walk", "walk-subset", "transform", "store-load", "stale-assembler", "wrap-assign-mutate"}
 Emit == Done => PrintT(ToJson([first |-> nodes[1], steps |-> hist, nodes |-> nodes]))
 =============================================================================
